@@ -9,6 +9,11 @@
                                                                  o_i = [start,end] | null (panic)
      "kbw"     in  = [keyed, size, off, events, parts, threads]   out = ["ok", tagged] | ["panic"]
      "gbw"     in  = [keyed, size, off, events, parts, threads]   out = ["ok", groups] | ["panic"]
+     "gmix"    in  = [s1, s2, off, events, parts, threads]        out = ["ok", groups] | ["panic"]
+               (event [sel, ts, v]: window size s1 if sel = 0 else s2; one map + one group_by_key)
+     "weq"     in  = [s1, e1, s2, e2]       out = [a == b, hash(a) == hash(b), a.cmp(b), a.partial_cmp(b)]
+     "weqrow"  in  = [s1, e1, n]            out = one such entry per (s2, e2) in 0..n x 0..n, s2-major
+               (cmp as -1/0/1, partial_cmp likewise or null for None)
    u64 values are JSON ints below 2^62, decimal strings otherwise (both accepted everywhere).
    events = [[k, ts, v] ..] (k is ignored by the unkeyed API, then reported as 0);
    parts = 0: collect_seq, parts = n > 0: collect_par(Some(threads), Some(n));
@@ -243,6 +248,67 @@ Definition known_events (size off : Z) (evs : list event) : bool :=
 Definition jflag (j : J) : option bool :=
   match j with JB b => Some b | JI z => Some (negb (z =? 0)) | _ => None end.
 
+(* ---------- Window's Eq / Hash / Ord ---------- *)
+Definition cmp_code (c : comparison) : Z := match c with Lt => -1 | Eq => 0 | Gt => 1 end.
+
+(* reference (NOT the model): windows as two-element integer lists, list equality and the
+   lexicographic list order of this file *)
+Definition ref_weq (a b : Z * Z) : bool := zlist_eqb [fst a; snd a] [fst b; snd b].
+Definition ref_wcmp (a b : Z * Z) : Z :=
+  if ref_weq a b then 0 else if zlist_leb [fst a; snd a] [fst b; snd b] then -1 else 1.
+
+Definition judge_weq (a b : Z * Z) (obs : J) : option (bool * bool) :=
+  match obs with
+  | JL [JB oeq; JB oheq; JI ocmp; jp] =>
+      let opc := match jp with JI z => Some z | _ => None end in
+      let pc_is (z : Z) := match opc with Some y => y =? z | None => false end in
+      let meq := window_eqb a b in
+      let mc := cmp_code (window_cmp a b) in
+      let mhash := zlist_eqb (window_hash_feed a) (window_hash_feed b) in
+      (* agreement: ==, cmp, partial_cmp as the model says; equal hash feeds => equal hashes
+         (different feeds may collide, so nothing is demanded then) *)
+      let agree := Bool.eqb oeq meq && (ocmp =? mc) && pc_is mc && implb mhash oheq in
+      (* property instance on the observed values: == is equality of (start,end); cmp is the
+         order by start, then end; cmp = 0 <-> ==; partial_cmp = Some cmp; == implies equal hashes *)
+      let prop := Bool.eqb oeq (ref_weq a b) && (ocmp =? ref_wcmp a b)
+                  && Bool.eqb (ocmp =? 0) oeq && pc_is ocmp && implb oeq oheq in
+      Some (agree, prop)
+  | _ => None
+  end.
+
+Definition zrange (n : Z) : list Z := map Z.of_nat (seq 0 (Z.to_nat n)).
+
+Fixpoint judge_weq_row (a : Z * Z) (bs : list (Z * Z)) (obs : list J) : option (bool * bool) :=
+  match bs, obs with
+  | [], [] => Some (true, true)
+  | b :: bs', o :: obs' =>
+      match judge_weq a b o, judge_weq_row a bs' obs' with
+      | Some (a1, p1), Some (a2, p2) => Some (a1 && a2, p1 && p2)
+      | _, _ => None
+      end
+  | _, _ => None
+  end.
+
+(* ---------- two window sizes in one group_by_key ---------- *)
+Definition mixed_size (s1 s2 : Z) (e : event) : Z := if fst e =? 0 then s1 else s2.
+Definition ref_tag_mixed (s1 s2 off : Z) (e : event) : list Z :=
+  let size := mixed_size s1 s2 e in
+  let s := ref_start (fst (snd e)) size off in
+  [0; s; s + size; snd (snd e)].
+Definition model_gmix (s1 s2 off : Z) (ps : list (list event)) : outcome (list (list Z)) :=
+  g <- group_by_mixed_window tumble_debug s1 s2 off ps ;; Ok (map code_group_u g).
+Definition prop_gmix (s1 s2 off : Z) (evs : list event) (obs : lobs) : bool :=
+  if (s1 <? 1) || (s2 <? 1) then true
+  else match obs with
+       | LOk groups =>
+           nodup_l (map group_key groups)
+           && forallb (fun g => (3 <? Z.of_nat (List.length g))) groups
+           && lmultiset_eqb (flat_map group_flat groups) (map (ref_tag_mixed s1 s2 off) evs)
+       | _ => false
+       end.
+Definition known_events_mixed (s1 s2 off : Z) (evs : list event) : bool :=
+  existsb (fun e => known_class (fst (snd e)) (mixed_size s1 s2 e) off) evs.
+
 Definition check_C13 (kind : string) (input output : J) : verdict :=
   if String.eqb kind "tumble" then
     match input with
@@ -286,5 +352,44 @@ Definition check_C13 (kind : string) (input output : J) : verdict :=
         | _, _, _, _, _ => malformed
         end
     | _ => malformed
+    end
+  else if String.eqb kind "gmix" then
+    match input with
+    | JL [j1; j2; jo; jevs; JI parts; JI _threads] =>
+        match ju64 j1, ju64 j2, ju64 jo, dec_events jevs, dec_list_outcome dec_group output with
+        | Some s1, Some s2, Some off, Some evs, Some obs =>
+            let ps := if parts =? 0 then [evs] else split_parts parts evs in
+            V (loutcome_agree obs (model_gmix s1 s2 off ps))
+              (prop_gmix s1 s2 off evs obs) (known_events_mixed s1 s2 off evs) false
+        | _, _, _, _, _ => malformed
+        end
+    | _ => malformed
+    end
+  else if String.eqb kind "weq" then
+    match input with
+    | JL [ja; jb; jc; jd] =>
+        match ju64 ja, ju64 jb, ju64 jc, ju64 jd with
+        | Some s1, Some e1, Some s2, Some e2 =>
+            match judge_weq (s1, e1) (s2, e2) output with
+            | Some (a, p) => ok_verdict a p
+            | None => malformed
+            end
+        | _, _, _, _ => malformed
+        end
+    | _ => malformed
+    end
+  else if String.eqb kind "weqrow" then
+    match input, output with
+    | JL [ja; jb; JI n], JL obs =>
+        match ju64 ja, ju64 jb with
+        | Some s1, Some e1 =>
+            let bs := flat_map (fun s2 => map (fun e2 => (s2, e2)) (zrange n)) (zrange n) in
+            match judge_weq_row (s1, e1) bs obs with
+            | Some (a, p) => ok_verdict a p
+            | None => malformed
+            end
+        | _, _ => malformed
+        end
+    | _, _ => malformed
     end
   else malformed.
